@@ -839,6 +839,16 @@ func (ls *LanceroSource) distributeData(buffersMsg BuffersChanType) *dataBlock {
 	nchan := len(datacopies)
 	block.segments = make([]DataSegment, nchan)
 
+	// If data were lost before this block, its frames (and every later one) are numbered after the
+	// estimated loss. Do this first: the external trigger counts below are based on the frame number.
+	var droppedFrames int
+	if dataDropDetected {
+		droppedDuration := lastSampleTime.Sub(ls.previousLastSampleTime)
+		droppedFrames = roundint(droppedDuration.Seconds() * ls.sampleRate)
+		ProblemLogger.Printf("Dropped %d lancero frames over Δt=%v", droppedFrames, droppedDuration)
+		ls.nextFrameNum += FrameIndex(droppedFrames)
+	}
+
 	// The external trigger is encoded in the second least significant bit of the feedback
 	// The information is redundant across columns, so we should only scan a single column
 	// The external trigger bit resolution is the row rate, eg for each row we get a 0 or a 1 representing
@@ -866,13 +876,6 @@ func (ls *LanceroSource) distributeData(buffersMsg BuffersChanType) *dataBlock {
 	}
 	block.externalTriggerRowcounts = externalTriggerRowcounts
 
-	var droppedFrames int
-	if dataDropDetected {
-		droppedDuration := lastSampleTime.Sub(ls.previousLastSampleTime)
-		droppedFrames = roundint(droppedDuration.Seconds() * ls.sampleRate)
-		ProblemLogger.Printf("Dropped %d lancero frames over Δt=%v", droppedFrames, droppedDuration)
-	}
-
 	for channelIndex := 0; channelIndex < nchan; channelIndex++ {
 		data := datacopies[ls.chan2readoutOrder[channelIndex]]
 		isFeedbackChannel := (channelIndex%2 == 1)
@@ -886,7 +889,7 @@ func (ls *LanceroSource) distributeData(buffersMsg BuffersChanType) *dataBlock {
 			rawData:         data,
 			framesPerSample: 1, // This will be changed later if decimating
 			framePeriod:     ls.samplePeriod,
-			firstFrameIndex: ls.nextFrameNum + FrameIndex(droppedFrames),
+			firstFrameIndex: ls.nextFrameNum,
 			firstTime:       firstTime,
 			signed:          !isFeedbackChannel,
 			droppedFrames:   droppedFrames,
